@@ -26,6 +26,8 @@ where
     db: DB,
     cache_db: DB,
     cache: HashMap<K, C>,
+    #[cfg(feature = "verif-hooks")]
+    verif_name: String,
 
     _phantom: std::marker::PhantomData<V>,
 }
@@ -55,6 +57,8 @@ where
             db,
             cache_db,
             cache,
+            #[cfg(feature = "verif-hooks")]
+            verif_name: name.to_string(),
             _phantom: std::marker::PhantomData,
         })
     }
@@ -159,6 +163,8 @@ where
     /// key: K - the key to set the value for
     /// value: V - the value to set
     pub fn set(&mut self, block_number: u64, key: &K, value: V) -> Result<(), Box<dyn Error>> {
+        #[cfg(feature = "verif-hooks")]
+        crate::verif::table_write(&self.verif_name, block_number, &key.encode_vec(), Some(&value.encode_vec()));
         let cache = self.retrieve_cache(&key)?;
         cache.set(block_number, value);
         Ok(())
@@ -170,6 +176,8 @@ where
     /// block_number: U256 - the block number to unset the value for
     /// key: K - the key to unset the value for
     pub fn unset(&mut self, block_number: u64, key: &K) -> Result<(), Box<dyn Error>> {
+        #[cfg(feature = "verif-hooks")]
+        crate::verif::table_write(&self.verif_name, block_number, &key.encode_vec(), None);
         let cache = self.retrieve_cache(&key)?;
         cache.unset(block_number);
         Ok(())
@@ -185,14 +193,22 @@ where
             let key_bytes = key.encode_vec();
             let cache_bytes = cache.encode_vec();
             if cache.is_old(block_number) {
+                #[cfg(feature = "verif-hooks")]
+                crate::verif::fp(&format!("{}_cache", self.verif_name), "del", &key_bytes, None);
                 self.cache_db.delete(&key_bytes)?;
             } else {
+                #[cfg(feature = "verif-hooks")]
+                crate::verif::fp(&format!("{}_cache", self.verif_name), "put", &key_bytes, Some(&cache_bytes));
                 self.cache_db.put(&key_bytes, &cache_bytes)?;
             }
 
             if let Some(value) = cache.latest() {
+                #[cfg(feature = "verif-hooks")]
+                crate::verif::fp(&self.verif_name, "put", &key_bytes, Some(&value.encode_vec()));
                 self.db.put(&key_bytes, &value.encode_vec())?;
             } else {
+                #[cfg(feature = "verif-hooks")]
+                crate::verif::fp(&self.verif_name, "del", &key_bytes, None);
                 self.db.delete(&key_bytes)?;
             }
         }
@@ -259,6 +275,39 @@ where
             self.cache.insert(key.clone(), C::new(stored_value));
         }
         Ok(self.cache.get_mut(key).ok_or("Cache not found")?)
+    }
+}
+
+#[cfg(feature = "verif-hooks")]
+impl<K, V, C> BlockCachedDatabase<K, V, C>
+where
+    K: Encode + Decode + Eq + Hash + Clone,
+    V: Encode + Decode + Eq + Clone,
+    C: BlockHistoryCache<V> + Encode + Decode + Clone,
+{
+    /// Raw contents (encoded bytes, sorted by key) of the value column, the persisted histories and the in-memory cache.
+    pub fn verif_dump(&self) -> (Vec<(Vec<u8>, Vec<u8>)>, Vec<(Vec<u8>, Vec<u8>)>, Vec<(Vec<u8>, Vec<u8>)>) {
+        let mut db = Vec::new();
+        for kv in self.db.full_iterator(IteratorMode::Start) {
+            if let Ok((k, v)) = kv {
+                db.push((k.to_vec(), v.to_vec()));
+            }
+        }
+        let mut cdb = Vec::new();
+        for kv in self.cache_db.full_iterator(IteratorMode::Start) {
+            if let Ok((k, v)) = kv {
+                cdb.push((k.to_vec(), v.to_vec()));
+            }
+        }
+        let mut cache: Vec<(Vec<u8>, Vec<u8>)> =
+            self.cache.iter().map(|(k, c)| (k.encode_vec(), c.encode_vec())).collect();
+        cache.sort();
+        (db, cdb, cache)
+    }
+
+    /// Name given at construction.
+    pub fn verif_name(&self) -> &str {
+        &self.verif_name
     }
 }
 
